@@ -1,1 +1,1 @@
-
+import Lemmas.Hoare
